@@ -102,6 +102,16 @@ Proof.
       rewrite <- app_assoc. tauto.
 Qed.
 
+(* number-token texts never spell a special value: strconv.ParseFloat returns +-Inf / NaN without
+   error only for texts that, after an optional sign, start with a letter (inf, infinity, nan) *)
+Definition not_special (v : str) : bool :=
+  match v with
+  | [] => true
+  | c :: r =>
+    if (c =? ch_plus) || (c =? ch_minus) then match r with d :: _ => negb (is_letter d) | [] => true end
+    else negb (is_letter c)
+  end.
+
 (* ---- finite floats: exponent field (bits 52..62) not all ones ---- *)
 Definition fin (bits : N) : bool := negb ((bits / 4503599627370496) mod 2048 =? 2047).
 
